@@ -22,6 +22,24 @@ CATCH = {
  "C17": (["C17"], ["C17|connected-without-valid-response","C17|key-mapping-hijacked"], False, "C17: move redial; challenges void once the node saw the disconnect"),
  "C18": (["C18"], ["C18|touching-tx-missing"], True, ""),
  "C19": (["C19"], ["C19|built-tx|spends-more-than-it-consumes|spend","C19|built-tx|spends-more-than-it-consumes|spend-multi"], True, ""),
+ "C01-r2": (["C01"], ["C01|accepted|type-atr-plain-output|block-tip","C01|accepted|type-atr-plain-output|block-fork"], False, "C01: edit type-atr-plain-output"),
+ "C02-r2": (["C04"], ["C04|trace-left|spendable-set"], True, "caught by C04 (same mechanism as seeded C03/C04); C02's own histories contain no failing reorganisation"),
+ "C03-r2": (["C03"], ["C03|ledger|both","C03|ledger|extra","C03|panic|blockchain.rs:cannot_continue_with_invalid_total_supply"], False, "C03: prune depth 1/2/3/8 and deep-reorganisation style"),
+ "C04-r2": (["C04"], ["C04|trace-left|tip"], False, "C04: candidate on the tip whose second block is delivered first"),
+ "C05-r2": (["C05"], ["C05|moved|sparse-tickets-in-interior"], False, "C05: style sparse-deep"),
+ "C06-r2": (["C06"], ["C06|accepted-under-same-hash|insert-spv-stub"], False, "C06: edit insert-spv-stub"),
+ "C07-r2": (["C07"], ["C07|producer-refused-own-block|chain|atr-multiplier-1","C07|producer-refused-own-block|network|other"], True, ""),
+ "C08-r2": (["C08"], ["C08|accepted|insufficient-work","C08|accepted|invalid-routing-path"], True, ""),
+ "C09-r2": (["C09"], ["C09|re-encode-differs|message|api"], True, ""),
+ "C10-r2": (["C10"], ["C10|alloc|decoder|block","C10|alloc|decoder|fetched","C10|alloc|decoder|msg"], True, ""),
+ "C11-r2": (["C11"], ["C11|panic|typed-tx-odd-shape|verification.process_event|transaction.rs:index_out_of_bounds_the_len"], False, "C11: hostile kind typed-tx-odd-shape"),
+ "C13-r2": (["C13"], ["C13|expired-output-spendable|pool","C13|panic|blockchain.rs:cannot_continue_with_invalid_total_supply"], True, ""),
+ "C14-r2": (["C14"], ["C14|pool|stale-reservation-after|bundle","C14|pool|stale-reservation-after|stage"], False, "C14: op tx-conflict-2nd-input"),
+ "C15-r2": (["C15"], ["C15|needed-block-never-announced"], False, "C15: never-announced blocks judged before the orphan classification"),
+ "C16-r2": (["C16"], ["C16|same-block-in-flight-twice"], False, "C16: op request-then-announce; in-flight monitor made precise"),
+ "C17-r2": (["C17"], ["C17|authenticated-as-itself"], True, ""),
+ "C18-r2": (["C18"], ["C18|header-differs|other-header-field","C18|wire|hash-changed","C18|spv-sync|block-not-obtained"], True, ""),
+ "C20-r2": (["C20"], ["C20|order|peers-held-then-blockchain|network.rs<-network.rs","C20|order|peers-held-then-config|network.rs<-network.rs","C20|deadlock|consensus:blockchain+config+mempool>peers|routing:config+peers>blockchain|…"], True, ""),
  "C20": (["C20"], ["C20|order|wallet-held-then-blockchain|verification_thread.rs<-verification_thread.rs","C20|deadlock|consensus:blockchain+config>wallet|verification:wallet>blockchain"], True, ""),
 }
 extra = {}
